@@ -671,6 +671,32 @@ func runScript(sc *script) {
 	if sc.Mask == 0 {
 		probe = nil
 	}
+	if rawProbe := probe; rawProbe != nil {
+		// the probe takes the interceptor's own lock: when an earlier call left that lock held it never returns.
+		// Run it under the watchdog; once it is stuck the state bits are no longer observed (the calls that
+		// follow park on the same lock and are reported as parked)
+		stuck := false
+		probe = func(ic interceptor.Interceptor, ssrc uint32, seq uint16) (bool, bool) {
+			if stuck {
+				return false, true
+			}
+			type pr struct{ exists, fresh bool }
+			ch := make(chan pr, 1)
+			go func() { // main.runScript.funcN: not counted as a goroutine of the interceptor
+				e, f := rawProbe(ic, ssrc, seq)
+				ch <- pr{e, f}
+			}()
+			select {
+			case r := <-ch:
+				return r.exists, r.fresh
+			case <-time.After(watchdog):
+				stuck = true
+				sc.noteLocked(&r.mu, "state probe blocked: a lock of the interceptor is held although no call is in progress")
+
+				return false, true
+			}
+		}
+	}
 	ops := append(append([]op{}, sc.Ops...), op{K: "close"})
 	obs := make([][2]int, len(ops))
 	var parked []parkedCall
@@ -1024,7 +1050,9 @@ func runGateLabelled(k *kind, mode int, label string, res *gateResult) {
 		}
 	}
 	close(g)
-	deadline := time.After(watchdog)
+	// a closed channel, not time.After: more than one of the calls below may hang, and each must see the deadline
+	deadline := make(chan struct{})
+	time.AfterFunc(watchdog, func() { close(deadline) })
 	for c := 0; c < nClose; c++ {
 		select {
 		case <-closed[c]:
@@ -1268,6 +1296,35 @@ var failingWriterScripts = [][]op{
 		{K: "traffic", X: 1}, {K: "traffic", X: 1}, {K: "traffic", X: 1}},
 }
 
+// longWarmScripts: a stream that has seen enough traffic for state that only builds up over many packets (the
+// jitter buffer starts playing out after 50) is unbound and bound again at once
+func longWarmScripts() [][]op {
+	rep := func(x uint32, n int) []op {
+		out := make([]op, n)
+		for i := range out {
+			out[i] = op{K: "traffic", X: x}
+		}
+
+		return out
+	}
+	cat := func(parts ...[]op) []op {
+		var out []op
+		for _, p := range parts {
+			out = append(out, p...)
+		}
+
+		return out
+	}
+	ub := func(x uint32) []op { return []op{{K: "unbind", X: x}, {K: "bind", X: x}} }
+
+	return [][]op{
+		cat([]op{{K: "bindw"}, {K: "bindr"}, {K: "bind", X: 1}}, rep(1, 52), ub(1), rep(1, 1)),
+		// (BindRTCPWriter first: without a loop every packet call of twcc / rfc8888 parks until the watchdog)
+		cat([]op{{K: "bindw"}, {K: "bind", X: 1}}, rep(1, 52), ub(1), rep(1, 3), ub(1)),
+		cat([]op{{K: "bind", X: 1}, {K: "bindw"}, {K: "bind", X: 2}}, rep(1, 30), rep(2, 25), ub(2), ub(1)),
+	}
+}
+
 func alphabet(nSSRC int) []op {
 	a := []op{{K: "bindw"}, {K: "bindr"}, {K: "close"}}
 	for x := 1; x <= nSSRC; x++ {
@@ -1416,8 +1473,8 @@ func main() {
 	o := cq.ParseFlags()
 	rng := o.Rand()
 	set := &cq.Set{
-		Name: "c11", Import: "IV.Check.C11bCheck", CaseType: "c11_case",
-		Checks: []string{"c11_mismatches", "c11_spec_failures", "c11_open_strand_failures"},
+		Name: "c11", Import: "IV.Check.C11cCheck", CaseType: "c11_case",
+		Checks: []string{"c11_mismatches", "c11_spec_failures", "c11_open_strand_failures", "c11_release_failures"},
 	}
 	var scs []*script
 	var tags [][]string
@@ -1530,6 +1587,9 @@ func main() {
 				for _, s := range failingWriterScripts {
 					add(k.id, s, failw, "failing-writer-fixed")
 				}
+			}
+			for _, s := range longWarmScripts() {
+				add(k.id, s, 0, "long-warm-rebind")
 			}
 			for i := 0; i < nRand; i++ {
 				n := 4 + rng.Intn(4)
